@@ -2,5 +2,6 @@ SPECIFICATION Spec
 CONSTANTS NEvents = 2
   Pauses = 2
   DispatchLock = FALSE
+  ContinueLock = TRUE
 INVARIANT Quiescent
 PROPERTY NoStartWhilePaused
